@@ -200,6 +200,9 @@ func runRules(p *Prog, spec *PropSpec) []*RuleOut {
 func safeRun(r *Rule, p *Prog) (out *RuleOut) {
 	defer func() {
 		if e := recover(); e != nil {
+			if os.Getenv("VERIF_DEBUG_PANIC") != "" {
+				fmt.Fprintf(os.Stderr, "rule %s panicked: %v\n%s\n", r.Name, e, debug.Stack())
+			}
 			out = newOut(r.Name)
 			out.viol("checker-panic", "-", "", fmt.Sprintf("rule panicked: %v", e))
 		}
